@@ -235,6 +235,20 @@ def proof_step(pid, tier):
     broken += pf["problems"]
     info["obligations"] = len(pf["theorems"])
     info["discharged"] = len(pf["theorems"]) if pf["compiled"] and not pf["problems"] else 0
+    # constants translated from /repo's source on this run, and the obligations tying them to the model
+    try:
+        import gen_constants
+        g = gen_constants.run_check(pid)
+        mine = [l for l in g["lemmas"] if pid in gen_constants.GROUPS[l]]
+        bad = [(l, m) for l, m in g["broken"] if l is None or pid in gen_constants.GROUPS.get(l, [])]
+        if mine:
+            info["generated_constants"] = {"constants": g["constants"], "obligations": mine, "broken": [l for l, _ in bad]}
+            info["obligations"] += len(mine)
+            info["discharged"] += len([l for l in mine if l not in [b for b, _ in bad]]) if not any(l is None for l, _ in bad) else 0
+            for l, m in bad:
+                broken.append("generated-constant obligation %s no longer holds (source constant vs model): %s" % (l or "(translator)", m[-300:]))
+    except Exception as e:      # the translator itself failing is a broken tie, not a pass
+        broken.append("constant translator failed: %r" % (e,))
     if tier == "thorough" and pf["compiled"]:
         c = coqchk(pid)
         info["coqchk"] = c
